@@ -410,6 +410,40 @@ fn sanitize(n: &mut Node, floor: u32) {
       sanitize(inner, f);
       return;
     }
+    Node::Un(Op::ReplayConn, inner) if floor > 0 => {
+      // replay() stores the first error for ever and hands it to every resubscription:
+      // below it *no* script may fail with an accepted code
+      fn bump_all(n: &mut Node, floor: u32) {
+        if let Node::Src(_, s) = n {
+          match s {
+            Src::Cold { script, .. } => {
+              for e in script.iter_mut() {
+                if let Ev::E(c) = e {
+                  *c = (*c).max(floor);
+                }
+              }
+            }
+            Src::PerSub { scripts, .. } => {
+              for sc in scripts.iter_mut() {
+                for e in sc.iter_mut() {
+                  if let Ev::E(c) = e {
+                    *c = (*c).max(floor);
+                  }
+                }
+              }
+            }
+            Src::Error(c) | Src::FromResult(Err(c)) | Src::Something(Err(c)) => *c = (*c).max(floor),
+            _ => {}
+          }
+        }
+        for c in n.children_mut() {
+          bump_all(c, floor);
+        }
+      }
+      bump_all(inner, floor);
+      sanitize(inner, floor);
+      return;
+    }
     Node::Nary(Comb::Amb, v) => {
       // whether amb subscribes inputs that cannot win any more is not fixed by any
       // property: keep sources with per-subscription behaviour out of amb
@@ -584,7 +618,9 @@ pub fn case(cfg: &CaseCfg) -> BoxedStrategy<Case> {
         }
       });
       if floor > 0 {
-        let sticky = |i: usize| matches!(kinds.get(i), Some(HotKind::Behavior(_)) | Some(HotKind::Replay));
+        let has_replay = root.has_op(&|n| matches!(n, Node::Un(Op::ReplayConn, _)));
+        let sticky =
+          |i: usize| has_replay || matches!(kinds.get(i), Some(HotKind::Behavior(_)) | Some(HotKind::Replay));
         for a in actions.iter_mut() {
           if let Action::Emit(i, Ev::E(c)) = a {
             if sticky(*i) && *c < floor {
